@@ -1069,7 +1069,8 @@ impl Transaction {
                 return false;
             }
 
-            return true;
+            // a staking transaction is signed by the staker like any other
+            // user-originated transaction: the checks below apply to it as well
         }
 
         //
